@@ -18,7 +18,7 @@ func runC09(c *Check, tier string) {
 	c.NotDec = "the 'only if' direction beyond the listed fields, collision resistance of the hash function, equality of keys across BUILD-file formats."
 	ruleR09a(c)
 	ruleKeyPurity(c, "R09b")
-	ruleR09c(c)
+	ruleR09c(c, "R09c")
 }
 
 var sortFuncs = map[string]bool{
@@ -563,8 +563,8 @@ func isDigestProducer(c *Check, call ssa.CallInstruction) bool {
 	return false
 }
 
-func ruleR09c(c *Check) {
-	c.Rule("R09c", "per hasher instance: the written components are classified FIXED (constants, digests) or VAR (anything else); the stream is injective iff at most one VAR component is written and not in a loop; a strings.Join / Sprintf that glues several VAR parts into one hashed component loses the element boundaries", 7)
+func ruleR09c(c *Check, rule string) {
+	c.Rule(rule, "per hasher instance: the written components are classified FIXED (constants, digests) or VAR (anything else); the stream is injective iff at most one VAR component is written and not in a loop; a strings.Join / Sprintf that glues several VAR parts into one hashed component loses the element boundaries", 7)
 	comp := hashComposing(c)
 	sinks := hasherSinks(c)
 	// group by hasher instance (the GetHasher() call, or the parameter, in one function)
@@ -616,15 +616,15 @@ func ruleR09c(c *Check) {
 		key := "stream-framing/" + fname
 		switch {
 		case len(vars) == 0:
-			c.OK("R09c", key, fmt.Sprintf("%d components, all fixed-length (constants or digests)", len(groups[k])), c.P.InstrPos(groups[k][0].Call))
+			c.OK(rule, key, fmt.Sprintf("%d components, all fixed-length (constants or digests)", len(groups[k])), c.P.InstrPos(groups[k][0].Call))
 		case len(vars) == 1 && !inLoop:
-			c.OK("R09c", key, "a single variable-length component: "+vars[0], c.P.InstrPos(groups[k][0].Call))
+			c.OK(rule, key, "a single variable-length component: "+vars[0], c.P.InstrPos(groups[k][0].Call))
 		default:
 			loopNote := ""
 			if inLoop {
 				loopNote = " (one of them once per loop iteration)"
 			}
-			c.Bad("R09c", key, fmt.Sprintf("%d variable-length component(s)%s are written back-to-back without length prefix or separator (%s): bytes can move between adjacent components without changing the stream, so different states share a key", len(vars), loopNote, strings.Join(vars, "; ")), c.P.InstrPos(groups[k][0].Call))
+			c.Bad(rule, key, fmt.Sprintf("%d variable-length component(s)%s are written back-to-back without length prefix or separator (%s): bytes can move between adjacent components without changing the stream, so different states share a key", len(vars), loopNote, strings.Join(vars, "; ")), c.P.InstrPos(groups[k][0].Call))
 		}
 	}
 	// joins / formats of several VAR parts whose result is hashed as one component
@@ -670,9 +670,9 @@ func ruleR09c(c *Check) {
 			}
 			key := "join-framing/" + fname
 			if cls == "FIXED" {
-				c.OK("R09c", key, "joined elements are fixed-length digests", c.P.InstrPos(j))
+				c.OK(rule, key, "joined elements are fixed-length digests", c.P.InstrPos(j))
 			} else {
-				c.Bad("R09c", key, fmt.Sprintf("variable-length elements (%s) are joined with %q, which the elements themselves may contain: [\"a%sb\"] and [\"a\",\"b\"] give the same hashed string", why, sep, sep), c.P.InstrPos(j))
+				c.Bad(rule, key, fmt.Sprintf("variable-length elements (%s) are joined with %q, which the elements themselves may contain: [\"a%sb\"] and [\"a\",\"b\"] give the same hashed string", why, sep, sep), c.P.InstrPos(j))
 			}
 		}
 		for _, f := range callsNamed(fn, "fmt.Sprintf") {
@@ -702,9 +702,9 @@ func ruleR09c(c *Check) {
 			}
 			key := "format-framing/" + fname
 			if nvar >= 2 {
-				c.Bad("R09c", key, fmt.Sprintf("%d variable-length values (e.g. %s) are formatted into one hashed string with a separator they may contain: key/value boundaries are ambiguous (\"a=b\"=\"c\" vs \"a\"=\"b=c\")", nvar, why), c.P.InstrPos(f))
+				c.Bad(rule, key, fmt.Sprintf("%d variable-length values (e.g. %s) are formatted into one hashed string with a separator they may contain: key/value boundaries are ambiguous (\"a=b\"=\"c\" vs \"a\"=\"b=c\")", nvar, why), c.P.InstrPos(f))
 			} else {
-				c.OK("R09c", key, "at most one variable-length value in the formatted component", c.P.InstrPos(f))
+				c.OK(rule, key, "at most one variable-length value in the formatted component", c.P.InstrPos(f))
 			}
 		}
 	}
